@@ -136,6 +136,7 @@ func roOp(t *sim.Tape, uniq string) fsx.Op {
 func (p C09) Run(c *sim.Ctx, t *sim.Tape) sim.RunResult {
 	cfg := &concCfg{FS: []string{"memfs", "orefafs"}[t.Int(2)], HardLink: t.Chance(600)}
 	cfg.Symlinks = cfg.FS == "memfs" && t.Chance(600)
+
 	w := buildWorld(cfg, 1)
 	baseEnv := w.envs[0]
 	baseEnv.VFS = w.fs // the base itself, not a Sub view
